@@ -41,7 +41,9 @@ Counts == IF Thorough THEN {1, 2, 3, 4, 5, 124, 125} ELSE {1, 2, 4, 5, 125}
 StartsFor(n) ==
     (IF Thorough THEN {0, 1, 2, 3, 100, 32767, 32768} ELSE {0, 3, 32768}) \cup
     {65536 - n - k : k \in (IF Thorough THEN 0..3 ELSE {0, 1})}
-Defs == NamedOrders      \* every named order as the default order (quick tier too: a deviation may show for one order only)
+\* every named order as the default order (quick tier too: a deviation may show for one order only), and the bare word-order
+\* flags (4 = LowWordFirst, 8 = HighWordFirst; thorough: the bare endianness flags 1, 2 as well)
+Defs == NamedOrders \cup {4, 8} \cup (IF Thorough THEN {1, 2} ELSE {})
 
 Win(s, n, d) ==
     [op |-> "window", start |-> s, payload |-> IF d = LE_LOW /\ n <= 5 THEN PayNul(n) ELSE Pay(n),
@@ -81,7 +83,17 @@ C13Cases(z) ==
     \cup {[op |-> "window", start |-> 100, payload |-> Pay(6), def |-> d, calls |-> [i \in 1..Len(h) |-> FullMenu[h[i]]], fresh |-> FALSE] :
         h \in UNION {[1..k -> 1..Len(FullMenu)] : k \in 1..2}, d \in NamedOrders}
 
-CaseSet(z) == CASE Set = "c04" -> C04Cases(0) [] Set = "c13" -> C13Cases(0)
+\* the default order changed BETWEEN reads on one Registers (WithByteOrder is a call like any other): every pair of
+\* orders (named ones and bare flags), reads that consult the default
+SetOrder(o) == Call("WithByteOrder", 0, o, 0, 0, 0)
+AllOrders == NamedOrders \cup {1, 2, 4, 8}
+DefReads == <<Call("Uint32", 100, 0, 0, 0, 0), Call("Uint64WithByteOrder", 101, 0, 0, 0, 0), Call("String", 102, 0, 4, 0, 0)>>
+OrderHist(z) ==
+    {[op |-> "window", start |-> 100, payload |-> Pay(6), def |-> BE_HIGH,
+      calls |-> <<SetOrder(o[1]), DefReads[r[1]], SetOrder(o[2]), DefReads[r[2]], DefReads[r[1]]>>, fresh |-> FALSE] :
+        o \in AllOrders \X AllOrders, r \in (1..3) \X (1..3)}
+
+CaseSet(z) == CASE Set = "c04" -> C04Cases(0) [] Set = "c13" -> C13Cases(0) \cup OrderHist(0)
 
 Init == c \in CaseSet(0)
 Next == UNCHANGED c
